@@ -301,7 +301,11 @@ Loop:
 	// e.g. /ab+/i becomes /(?i)ab+/.
 	if l.acceptAll(isRegexFlag) {
 		flags := l.newToken(0)
-		t.Value = fmt.Sprintf("(?%s)%s", flags.Value, t.Value)
+		// Leave an empty expression empty so that the
+		// parser rejects it, flags or no flags.
+		if t.Value != "" {
+			t.Value = fmt.Sprintf("(?%s)%s", flags.Value, t.Value)
+		}
 	}
 
 	return t
